@@ -38,6 +38,53 @@ impl Property for C12 {
     fn run(&self, s: &Streams) -> CaseOut {
         let mut out = CaseOut::new();
         out.owns_panics = true;
+        // One case in forty: a header of 66-90 columns and one row in which a `bits(k, 5)` entry with k from 65 up to the
+        // number of columns stands for k of them (the row has the right total length). The same row with `bits(64, 5)`
+        // and one literal more must be accepted, so the width is what is wrong: above 64 whatever the header's length.
+        {
+            let mut wch = Ch::new(&s[2]);
+            if wch.chance(1, 40) {
+                out.class("bits-width-above-64-in-a-wide-header");
+                let n = 66 + wch.upto(25);
+                let k = 65 + wch.upto(n - 64);
+                let header: Vec<String> = (0..n).map(|i| format!("W{i}")).collect();
+                let before = wch.upto(n - k + 1);
+                let row = |w: usize| -> String {
+                    let mut es: Vec<String> = vec!["0".to_string(); before];
+                    es.push(format!("bits({w},5)"));
+                    es.extend(std::iter::repeat("0".to_string()).take(n - before - w));
+                    es.join(" ")
+                };
+                let wrap = wch.upto(3);
+                let nl = wch.chance(1, 2);
+                let text = |w: usize| -> String {
+                    let body = match wrap {
+                        0 => row(w),
+                        1 => format!("repeat(2) {}", row(w)),
+                        _ => format!("loop(i,2)\n{}\nend loop", row(w)),
+                    };
+                    format!("{}\n{}{}", header.join(" "), body, if nl { "\n" } else { "" })
+                };
+                out.put("source", text(k));
+                out.nontrivial = true;
+                match parse(&text(64)) {
+                    Ok(Ok(_)) => {}
+                    _ => {
+                        out.discard("valid-program-rejected");
+                        return out;
+                    }
+                }
+                match parse(&text(k)) {
+                    Err(p) => out.fail(p.key(), format!("parsing a malformed program panicked: {p}")),
+                    Ok(Ok(_)) => out.fail(
+                        format!("c12:accepted:bits-width-above-64-in-a-wide-header:{}", if nl { "nl" } else { "no-nl" }),
+                        format!("a header of {n} columns and a row holding `bits({k},5)` (total length right) was accepted: a bits width above 64 is malformed whatever the header's length"),
+                    ),
+                    Ok(Err(_)) => {}
+                }
+                return out;
+            }
+        }
         let cfg = break_cfg();
         let built = gen_case(&mut Ch::new(&s[0]), &cfg);
         let lines = program_lines(&built.prog);
@@ -71,6 +118,7 @@ impl Property for C12 {
             cr_at_eol: false,
             mixed_eol: true,
         };
+        let via_dig = ech.chance(1, 4);
         let variants: &[bool] = if b.force_no_newline { &[false] } else { &[true, false] };
         for keep_nl in variants {
             let mut o = opts;
@@ -101,6 +149,19 @@ impl Property for C12 {
                     return out;
                 }
                 Ok(Err(_)) => {}
+            }
+            // the other way into the crate: the same text as the source of a test in a .dig document (one labelled pin per
+            // signal), loaded with load_test. Malformed is malformed on that path too, final line break or not.
+            if via_dig {
+                out.class("also-through-a-dig-document");
+                if let Ok(Some(_)) = crate::props::common::load_via_dig(&r.text, &built.sigs) {
+                    out.put("edit", format!("{} at {}", b.kind.name(), b.site));
+                    out.fail(
+                        format!("c12:accepted-through-dig:{}:{}", b.kind.name(), if *keep_nl { "nl" } else { "no-nl" }),
+                        format!("malformed program ({} at {}, final newline: {keep_nl}) rejected by str::parse but accepted as the source of a test in a .dig document (dig::File::parse + load_test):\n{}", b.kind.name(), b.site, r.text),
+                    );
+                    return out;
+                }
             }
         }
         out.put("edit", format!("{} at {}", b.kind.name(), b.site));
